@@ -80,7 +80,7 @@ psgstrf_bmod2D(
     float       *TriTmp, *MatvecTmp;
     register int_t ldaTmp;
     register int_t r_ind, r_hi;
-    static   int_t first = 1, maxsuper, rowblk;
+    register int_t maxsuper = sp_ienv(3), rowblk = sp_ienv(4);
     int_t          *lsub, *xlsub_end;
     float       *lusup;
     int_t          *xlusup;
@@ -91,11 +91,6 @@ psgstrf_bmod2D(
     double f_time;
 #endif    
     
-    if ( first ) {
-	maxsuper = sp_ienv(3);
-	rowblk   = sp_ienv(4);
-	first = 0;
-    }
     ldaTmp = maxsuper + rowblk;
 
     lsub      = Glu->lsub;
